@@ -62,6 +62,9 @@ FN_MODULE = {
     "evaluate_ehrenfest_force": "gbasis.evals.stress_tensor",
     "evaluate_ehrenfest_hessian": "gbasis.evals.stress_tensor",
     "generate_transformation": "gbasis.spherical",
+    "real_solid_harmonic": "gbasis.spherical",
+    "factorial2": "gbasis.utils",
+    "is_integral_screened": "gbasis.integrals.overlap",
     "parse_nwchem": "gbasis.parsers",
     "parse_gbs": "gbasis.parsers",
     "make_contractions": "gbasis.parsers",
